@@ -406,10 +406,11 @@ func (o ObjSpec) json() any {
 	case "namespace":
 		return J{"kind": "namespace", "name": o.NSName, "labels": labelsJSON(o.Labels)}
 	case "controller":
+		// "ctl": the workload's resource; the model's ExtractPodSpec (Psa/Extract.lean) decides what the controller sees of it
 		if o.NoTemplate && o.CtlKind == "replicationcontrollers" {
-			return J{"kind": "controller", "template": nil}
+			return J{"kind": "controller", "ctl": o.CtlKind, "template": nil}
 		}
-		return J{"kind": "controller", "template": podObjJSON(o.Pod)}
+		return J{"kind": "controller", "ctl": o.CtlKind, "template": podObjJSON(o.Pod)}
 	case "other":
 		return J{"kind": "other"}
 	}
